@@ -96,4 +96,184 @@ theorem gen_vint64_no_panic (v b x : Nat) :
     unfold trailingZeros8 at e
     omega
 
+/-! ## `read_from` guards of `TraceInfo`, `ProofOptions`, `Context` (Winter/Gen/ReadGuards.lean) -/
+open Gen.Limits
+
+theorem pow2_eq (x : Nat) : Gen.isPow2 x = pow2 x := by
+  unfold Gen.isPow2 pow2
+  rw [Bool.eq_iff_iff]
+  simp only [Bool.and_eq_true, bne_iff_ne, beq_iff_eq]
+  exact ⟨fun ⟨a, b⟩ => ⟨a, b.symm⟩, fun ⟨a, b⟩ => ⟨a, b.symm⟩⟩
+
+/-- ★ the guards of `TraceInfo::read_from` as regenerated on this run, for ALL arguments: which
+    (main, aux, rands, log2 length) bytes are refused, `checked_shl`, and the final constructor's assertions -/
+theorem gen_trace_info_guards (main aux rands e n : Nat) (_md : Bytes) :
+    Gen.ReadGuards.trace_info_main_zero main = decide (main = 0) ∧
+    Gen.ReadGuards.trace_info_too_wide (Gen.ReadGuards.trace_info_full_width main aux)
+      = decide (main + aux > MAX_TRACE_WIDTH) ∧
+    Gen.ReadGuards.trace_info_rands_without_aux aux rands = decide (aux = 0 ∧ rands ≠ 0) ∧
+    Gen.ReadGuards.trace_info_too_many_rands rands = decide (rands > MAX_RAND_SEGMENT_ELEMENTS) ∧
+    Gen.ReadGuards.trace_info_too_short e = decide (e < MIN_TRACE_LENGTH.log2) ∧
+    Gen.ReadGuards.trace_info_length e = (decide (e < 64), 2 ^ e % 18446744073709551616) ∧
+    Gen.ReadGuards.trace_info_has_meta n = decide (n ≠ 0) := by
+  have h8 : Nat.log2 8 = 3 := by decide
+  unfold MAX_TRACE_WIDTH MAX_RAND_SEGMENT_ELEMENTS MIN_TRACE_LENGTH
+  unfold_gen Gen.ReadGuards
+  simp [h8]
+
+/-- ★ `TraceInfo::new_multi_segment` (regenerated) is the model's `TraceInfo.wf` for every trace length a
+    `usize` holds -/
+theorem gen_trace_info_new_eq_wf (t : TraceInfo) (h : t.length < 18446744073709551616) :
+    Gen.TraceInfo.new_multi_segment_ok t.main t.aux t.rands t.length t.metadata = t.wf := by
+  unfold TraceInfo.wf MIN_TRACE_LENGTH MAX_META_LENGTH MAX_TRACE_WIDTH MAX_RAND_SEGMENT_ELEMENTS
+  unfold_gen Gen.TraceInfo
+  simp only [pow2_eq, gt_iff_lt, ge_iff_le]
+  rw [Bool.eq_iff_iff]
+  simp only [Bool.and_eq_true, Bool.or_eq_true, decide_eq_true_eq, bne_iff_ne, beq_iff_eq, ne_eq]
+  constructor <;> intro hh <;> grind
+
+theorem dbind_congr {α β : Type} {d : Dec α} {f g : α → Dec β} (h : ∀ a, f a = g a) :
+    (d >>= f) = (d >>= g) := by
+  have : f = g := funext h
+  rw [this]
+
+/-- ★ the model's `TraceInfo` decoder IS `read_from` over the regenerated guards -/
+theorem traceInfo_dec_eq_gen : traceInfo.dec = traceInfoDecG := by
+  have g1 : ∀ main, Gen.ReadGuards.trace_info_main_zero main = decide (main = 0) :=
+    fun main => (gen_trace_info_guards main 0 0 0 0 []).1
+  have g2 : ∀ main aux, Gen.ReadGuards.trace_info_too_wide (Gen.ReadGuards.trace_info_full_width main aux)
+      = decide (main + aux > MAX_TRACE_WIDTH) := fun main aux => (gen_trace_info_guards main aux 0 0 0 []).2.1
+  have g3 : ∀ aux rands, Gen.ReadGuards.trace_info_rands_without_aux aux rands = decide (aux = 0 ∧ rands ≠ 0) :=
+    fun aux rands => (gen_trace_info_guards 0 aux rands 0 0 []).2.2.1
+  have g4 : ∀ rands, Gen.ReadGuards.trace_info_too_many_rands rands = decide (rands > MAX_RAND_SEGMENT_ELEMENTS) :=
+    fun rands => (gen_trace_info_guards 0 0 rands 0 0 []).2.2.2.1
+  have g5 : ∀ e, Gen.ReadGuards.trace_info_too_short e = decide (e < MIN_TRACE_LENGTH.log2) :=
+    fun e => (gen_trace_info_guards 0 0 0 e 0 []).2.2.2.2.1
+  have g6 : ∀ e, Gen.ReadGuards.trace_info_length e = (decide (e < 64), 2 ^ e % 18446744073709551616) :=
+    fun e => (gen_trace_info_guards 0 0 0 e 0 []).2.2.2.2.2.1
+  have g7 : ∀ n, Gen.ReadGuards.trace_info_has_meta n = decide (n ≠ 0) :=
+    fun n => (gen_trace_info_guards 0 0 0 0 n []).2.2.2.2.2.2
+  funext bs
+  unfold traceInfoDecG
+  show traceInfo.dec bs = _
+  unfold traceInfo
+  simp only [g1, g2, g3, g4, g5, g6, g7, decide_eq_true_eq, Bool.not_eq_true', decide_eq_false_iff_not, Nat.not_lt]
+  refine congrFun (dbind_congr fun main => ?_) bs
+  refine ite_congr rfl (fun _ => rfl) (fun _ => ?_)
+  refine dbind_congr fun aux => ?_
+  refine ite_congr rfl (fun _ => rfl) (fun _ => ?_)
+  refine dbind_congr fun rands => ?_
+  refine ite_congr rfl (fun _ => rfl) (fun _ => ?_)
+  refine ite_congr rfl (fun _ => rfl) (fun _ => ?_)
+  refine dbind_congr fun e => ?_
+  refine ite_congr rfl (fun _ => rfl) (fun _ => ?_)
+  refine ite_congr rfl (fun _ => rfl) (fun he => ?_)
+  have hlt : 2 ^ e < 18446744073709551616 := by
+    have : 2 ^ e < 2 ^ 64 := Nat.pow_lt_pow_right (by omega) (by omega)
+    simpa using this
+  rw [Nat.mod_eq_of_lt hlt]
+  refine dbind_congr fun n => ?_
+  refine dbind_congr fun md => ?_
+  rw [← gen_trace_info_new_eq_wf ⟨main, aux, rands, 2 ^ e, md⟩ hlt]
+
+/-- ★ the guards of `ProofOptions::read_from` as regenerated on this run, for ALL arguments -/
+theorem gen_proof_options_guards (nq bl gr ff rd : Nat) :
+    Gen.ReadGuards.proof_options_bad_queries nq = decide (nq = 0 ∨ nq > MAX_NUM_QUERIES) ∧
+    Gen.ReadGuards.proof_options_bad_blowup bl =
+      decide (¬ pow2 bl = true ∨ ¬ (MIN_BLOWUP_FACTOR ≤ bl ∧ bl ≤ MAX_BLOWUP_FACTOR)) ∧
+    Gen.ReadGuards.proof_options_bad_grinding gr = decide (gr > MAX_GRINDING_FACTOR) ∧
+    Gen.ReadGuards.proof_options_bad_folding ff =
+      decide (¬ pow2 ff = true ∨ ¬ (FRI_MIN_FOLDING_FACTOR ≤ ff ∧ ff ≤ FRI_MAX_FOLDING_FACTOR)) ∧
+    Gen.ReadGuards.proof_options_bad_remainder rd =
+      decide (¬ pow2 (rd + 1) = true ∨ rd > FRI_MAX_REMAINDER_DEGREE) := by
+  unfold MAX_NUM_QUERIES MIN_BLOWUP_FACTOR MAX_BLOWUP_FACTOR MAX_GRINDING_FACTOR FRI_MIN_FOLDING_FACTOR
+    FRI_MAX_FOLDING_FACTOR FRI_MAX_REMAINDER_DEGREE
+  unfold_gen Gen.ReadGuards
+  simp [pow2_eq]
+
+/-- ★ none of the five guards fires exactly when `ProofOptions::new` (regenerated) accepts, which is the model's
+    `wf` for a valid field-extension byte: `read_from` never reaches a panicking constructor -/
+theorem gen_proof_options_guards_iff (nq bl gr fe ff rd : Nat) (hfe : fext.wf fe = true) :
+    ((Gen.ReadGuards.proof_options_bad_queries nq || Gen.ReadGuards.proof_options_bad_blowup bl ||
+      Gen.ReadGuards.proof_options_bad_grinding gr || Gen.ReadGuards.proof_options_bad_folding ff ||
+      Gen.ReadGuards.proof_options_bad_remainder rd) = false ↔ (⟨nq, bl, gr, fe, ff, rd⟩ : ProofOptions).wf = true) ∧
+    (Gen.ProofOpts.new_ok nq bl gr fe ff rd = true ↔ (⟨nq, bl, gr, fe, ff, rd⟩ : ProofOptions).wf = true) := by
+  obtain ⟨q1, q2, q3, q4, q5⟩ := gen_proof_options_guards nq bl gr ff rd
+  rw [q1, q2, q3, q4, q5]
+  unfold ProofOptions.wf MAX_NUM_QUERIES MIN_BLOWUP_FACTOR MAX_BLOWUP_FACTOR MAX_GRINDING_FACTOR
+    FRI_MIN_FOLDING_FACTOR FRI_MAX_FOLDING_FACTOR FRI_MAX_REMAINDER_DEGREE
+  unfold_gen Gen.ProofOpts
+  simp only [pow2_eq, hfe, Bool.and_true, Bool.or_eq_false_iff, Bool.and_eq_true, decide_eq_true_eq,
+    decide_eq_false_iff_not, gt_iff_lt, ge_iff_le]
+  constructor <;> constructor <;> intro h <;> grind
+
+theorem fext_bind_congr {β : Type} {f g : Nat → Dec β} (h : ∀ a, fext.wf a = true → f a = g a) :
+    (fext.dec >>= f) = (fext.dec >>= g) := by
+  funext bs
+  show Dec.bind fext.dec f bs = Dec.bind fext.dec g bs
+  unfold Dec.bind
+  cases hd : fext.dec bs with
+  | ok p =>
+    obtain ⟨a, r⟩ := p
+    have hw : fext.wf a = true := by
+      unfold fext at hd ⊢
+      cases bs with
+      | nil => simp [bind, Dec.bind, readU8] at hd
+      | cons b t =>
+        simp only [bind, Dec.bind, readU8] at hd
+        by_cases hb : b = 1 ∨ b = 2 ∨ b = 3
+        · simp only [hb, if_true, pure, Dec.pure, Res.ok.injEq, Prod.mk.injEq] at hd
+          rw [← hd.1]; rcases hb with h1 | h1 | h1 <;> simp [h1]
+        · simp [hb, Dec.fail] at hd
+    simp only []
+    rw [h a hw]
+  | err => rfl
+  | eof => rfl
+  | panic => rfl
+
+/-- ★ the model's `ProofOptions` decoder IS `read_from` over the regenerated guards followed by the regenerated
+    constructor -/
+theorem proofOptions_dec_eq_gen : proofOptions.dec = proofOptionsDecG := by
+  unfold proofOptionsDecG
+  show proofOptions.dec = _
+  unfold proofOptions
+  simp only []
+  refine dbind_congr fun nq => ?_
+  refine dbind_congr fun bl => ?_
+  refine dbind_congr fun gr => ?_
+  refine fext_bind_congr fun fe hfe => ?_
+  refine dbind_congr fun ff => ?_
+  refine dbind_congr fun rd => ?_
+  obtain ⟨k1, k2⟩ := gen_proof_options_guards_iff nq bl gr fe ff rd hfe
+  by_cases hw : (⟨nq, bl, gr, fe, ff, rd⟩ : ProofOptions).wf = true
+  · rw [if_pos hw, k1.mpr hw, k2.mpr hw]; rfl
+  · have hb : (Gen.ReadGuards.proof_options_bad_queries nq || Gen.ReadGuards.proof_options_bad_blowup bl ||
+        Gen.ReadGuards.proof_options_bad_grinding gr || Gen.ReadGuards.proof_options_bad_folding ff ||
+        Gen.ReadGuards.proof_options_bad_remainder rd) = true := by
+      cases hh : (Gen.ReadGuards.proof_options_bad_queries nq || Gen.ReadGuards.proof_options_bad_blowup bl ||
+        Gen.ReadGuards.proof_options_bad_grinding gr || Gen.ReadGuards.proof_options_bad_folding ff ||
+        Gen.ReadGuards.proof_options_bad_remainder rd) with
+      | true => rfl
+      | false => exact absurd (k1.mp hh) hw
+    rw [if_neg hw, hb]; rfl
+
+/-- ★ the guards of `Context::read_from` as regenerated on this run -/
+theorem gen_context_guards (n len b lde : Nat) :
+    Gen.ReadGuards.context_empty_modulus n = decide (n = 0) ∧
+    Gen.ReadGuards.context_trace_too_long len = decide (len > 4294967295) ∧
+    Gen.ReadGuards.context_lde len b = len * b ∧
+    (Gen.ReadGuards.context_lde_ok len b = true ↔ len * b < 18446744073709551616) ∧
+    Gen.ReadGuards.context_lde_too_big lde = decide (lde > 4294967295) := by
+  unfold_gen Gen.ReadGuards
+  simp
+
+/-- ★ the model's `Context` decoder IS `read_from` over the regenerated guards -/
+theorem context_dec_eq_gen : context.dec = contextDecG := by
+  unfold contextDecG
+  show context.dec = _
+  unfold context
+  simp only [(gen_context_guards _ 0 0 0).1, fun len => (gen_context_guards 0 len 0 0).2.1,
+    fun len b => (gen_context_guards 0 len b 0).2.2.1, fun lde => (gen_context_guards 0 0 0 lde).2.2.2.2,
+    decide_eq_true_eq, ← traceInfo_dec_eq_gen, ← proofOptions_dec_eq_gen]
+
 end C12G
